@@ -166,17 +166,17 @@ func c13Setters(c *choice.Ctx, st *Stats, p int) {
 	var s sc
 	switch which {
 	case 0:
-		n := c.Choose("len", 81)
+		n := fineLens[c.Choose("len", len(fineLens))]
 		s = sc{"SetImplID", func() error { return cl.SetImplID(pat(n, 1)) }, n == 32}
 	case 1:
-		n := c.Choose("len", 81)
+		n := fineLens[c.Choose("len", len(fineLens))]
 		s = sc{"SetBootSeed", func() error { return cl.SetBootSeed(pat(n, 1)) }, refmodel.BootSeedValid(p, n)}
 	case 2:
-		n := c.Choose("len", 81)
+		n := fineLens[c.Choose("len", len(fineLens))]
 		s = sc{"SetNonce", func() error { return cl.SetNonce(pat(n, 1)) }, n == 32 || n == 48 || n == 64}
 	case 3:
-		i := c.Choose("len", 81*4)
-		b := instID(i/4, []byte{1, 0, 2, 0xff}[i%4])
+		i := c.Choose("len", len(fineLens)*4)
+		b := instID(fineLens[i/4], []byte{1, 0, 2, 0xff}[i%4])
 		s = sc{"SetInstID", func() error { return cl.SetInstID(b) }, refmodel.InstIDValid(b)}
 	case 4:
 		i := c.Choose("ref", len(certNbh))
@@ -236,7 +236,7 @@ func c13Setters(c *choice.Ctx, st *Stats, p int) {
 	}
 	// component field setters
 	comp := &psatoken.SwComponent{}
-	n := c.Choose("complen", 81)
+	n := fineLens[c.Choose("complen", len(fineLens))]
 	for name, f := range map[string]func([]byte) error{"SetMeasurementValue": comp.SetMeasurementValue, "SetSignerID": comp.SetSignerID} {
 		if err := f(pat(n, 3)); err != nil {
 			if got := errClass(err); got != "wrong-syntax" {
